@@ -18,12 +18,15 @@ namespace Hc.Props.C15
 open Hc.Catalog Hc.Generated.Catalog
 
 /-- No exported constructor of the three packages panics, every one yields a well-formed type id, every
-    parameterless characteristic constructor a known format and unit and a non-empty duplicate-free list of known
-    permissions; every service only well-typed characteristics; every accessory starts with the Accessory
+    characteristic constructor — the generated parameterless ones AND the generic `NewBool / NewInt / NewFloat / NewString /
+    NewBytes / NewCharacteristic(typ)` (F67: the earlier form of this theorem was about the parameterless ones only, and
+    the generic ones returned objects without permissions, two of them without a format) — a known unit, a non-empty
+    duplicate-free list of known permissions and, except the untyped base `NewCharacteristic`, a known format; every
+    service only well-typed characteristics; every accessory starts with the Accessory
     Information service and contains only well-typed services without a repeated characteristic type. -/
 theorem every_ctor_usable :
-    (∀ c ∈ charRows, c.panicked = false ∧ c.typ ≠ none ∧
-      (c.nargs = 0 → c.format ≠ .unknown ∧ c.unit ≠ .unknown ∧ c.perms ≠ [] ∧ (∀ p ∈ c.perms, p ≠ Perm.unknown) ∧ c.perms.Nodup)) ∧
+    (∀ c ∈ charRows, c.panicked = false ∧ c.typ ≠ none ∧ c.unit ≠ .unknown ∧
+      c.perms ≠ [] ∧ (∀ p ∈ c.perms, p ≠ Perm.unknown) ∧ c.perms.Nodup ∧ (c.untyped = false → c.format ≠ .unknown)) ∧
     (∀ s ∈ svcRows, s.panicked = false ∧ s.typ ≠ none ∧ ∀ t ∈ s.chars, t ≠ none) ∧
     (∀ a ∈ accRows, a.panicked = false ∧ (a.isAccessory = true →
       (∃ cs rest, a.services = (some accessoryInformation, cs) :: rest) ∧
